@@ -267,6 +267,31 @@ def run(chk):
                 return z3.Implies(z3.And(rep, defined), same(terms(p.value), want))
             chk.prove_paths(f"mixed:{lt}{op}{rt}:==python-on-values(nat<2^63)", paths, post, func=f"{NUM}:int")
 
+    # ------------------------------------------------------------------ int/nat operand with a float operand: Python converts the integer
+    # (exactly its value, round to nearest) and then applies the float operation
+    for op in ("+", "-", "*", "/"):
+        for lt, rt in (("nat", "float"), ("float", "nat"), ("int", "float"), ("float", "int")):
+            def thunk(it, op=op, lt=lt, rt=rt):
+                w = G.GuppyWorld(e, it, tables)
+                worldref[0] = w
+                l, r = fresh_arg(lt, "x0"), fresh_arg(rt, "x1")
+                it.ctx.ghost["args"] = (l, r)
+                return w.binary(op, l, r)
+            paths = e.explore(thunk)
+
+            def post(p, op=op, lt=lt, rt=rt):
+                l, r = p.ctx.ghost["args"]
+                tofp = lambda v: v.t if v.ty == "float" else (z3.fpUnsignedToFP if v.ty == "nat" else z3.fpSignedToFP)(G.RNE, v.t, G.FP)  # noqa: E731
+                want, defined = G.pyspec_float("__%s__" % G.BIN_DUNDER[op])(tofp(l), tofp(r))
+                if p.kind != "return":
+                    return z3.Not(defined)
+                return z3.Implies(defined, same(terms(p.value), want))
+            chk.prove_paths(f"mixed:{lt}{op}{rt}:==python-float-op-on-float(integer-value)", paths, post, func=f"{NUM}:float")
+    # the coercion used above (GuppyWorld.coerce = ONE direct call of the target's conversion
+    # method) is the contract of the real try_coerce_to, discharged here from its code
+    from .C16 import try_coerce_obligations
+    try_coerce_obligations(chk, e, tag="mixed-operands:")
+
     # ------------------------------------------------------------------ reflected checkers: real code of ReversingChecker / DunderChecker
     CK = "guppylang_internals.std._internal.checker"
     e.func_info(CK, "ReversingChecker.parse_name")
@@ -393,6 +418,6 @@ def run(chk):
                   G._floordiv_s(z3.BitVec("x0", 64), z3.BitVec("x1", 64))[0] == z3.BitVec("x0", 64) / z3.BitVec("x1", 64))
     chk.expected_min_obligations = 150
     chk.not_covered += ["float // and % against CPython's fmod-based algorithm (z3 FP rem out of reach): only the Guppy body floor(a/b) is unfolded",
-                        "mixed int/nat with float operands (comparisons would need exact int/float comparison)",
+                        "comparisons of int/nat with float operands (would need exact int/float comparison)",
                         "ipow/fpow/fround values (uninterpreted)", "that the emulator implements the assumed op semantics"]
     chk.use_engine(e)
